@@ -8,6 +8,7 @@ numerically at random isotopomer states.
 
 from __future__ import annotations
 
+import copy
 import itertools
 import os
 
@@ -254,7 +255,10 @@ def run_case(case: dict) -> dict:
                 viols.append(core.viol("get_isotopomer_of does not list the 2**n isotopomer names", None, compound=one, got=lst[:8], **ctx))
             rng.choice([lst.reverse, lst.clear, lambda lst=lst: lst.pop(0)])()
             counters["name_lists_looked_up_and_modified_by_the_caller_before_the_build"] = 1
-        lm = mapper.build_model(initial_labels=dict(init) or None)
+        init_obj = copy.deepcopy(init)  # the caller's own specification object, handed to every build of this case
+        lm = mapper.build_model(initial_labels=init_obj or None)
+        if init_obj != init:
+            viols.append(core.viol("build_model changed the label specification it was given", None, now=init_obj, **ctx))
     except Exception as e:  # noqa: BLE001
         import traceback
 
@@ -274,7 +278,7 @@ def run_case(case: dict) -> dict:
                     reused.label_maps[k] = list(v)
                 else:
                     reused.label_maps[k][:] = list(v)
-            m2 = reused.build_model(initial_labels=dict(init) or None)
+            m2 = reused.build_model(initial_labels=init_obj or None)
             canon2 = lambda m: sorted(tuple(sorted((k, float(v)) for k, v in r.stoichiometry.items() if v != 0)) for r in m.get_raw_reactions().values())  # noqa: E731
             if canon2(m2) != canon2(lm) or m2.get_initial_conditions() != lm.get_initial_conditions():
                 viols.append(core.viol("second build of one mapper (maps replaced in between) differs from a fresh mapper's build", None, first_maps=other, **ctx))
